@@ -30,6 +30,8 @@ RULE = ("workloads = fixed boundary corpus (objects crossing the table growth at
         "across the inline threshold and >= 200 bytes, parse texts that allocate at every site, deep copies, pointer sets, patches; containers "
         "whose capacity was left by an earlier fault-free history — parsed, shrunk to fit, shrunk with slack, grown, deep-copied — then each "
         "modifying route (put/insert/add, pointer set, in-place patch) at first / last / one-past / far index; the print-buffer API used "
+        "operations that need no memory or give it back — del_idx single/bulk on 33..300 elements leaving 0, 1, cap/4-1, cap/4, cap/4+1, "
+        "shrink, object_del, in-place put/set/inc, JSON Patch remove/move on big arrays — each also with EVERY request refused; "
         "directly: sprintbuf with eight formats and output lengths 0..5000 around 127|128 and around the current capacity, memappend, memset) + "
         "PRNG-generated trees/texts; every allocation index k of the test part is failed in turn (thorough: + sampled double faults); "
         "a case is non-trivial when N > 0 and at least one k ends in a documented failure; distinct = distinct script line among those")
@@ -52,7 +54,8 @@ LEVEL_TEXT = ("Machine-checked, for EVERY input and EVERY allocator behaviour (a
               "constructors with roll-back (new_double_s, new_object, new_array, printbuf_new, tokener_new); sprintbuf with its vasprintf temporary on "
               "either side of the 128-byte stack buffer (contents per C19, the temporary released exactly once on every path); "
               "json_c_set_serialization_double_format over C02's settings model (SerModel.set_format): -1 leaves the configuration, hence every "
-              "thread's effective format, and the live blocks exactly as they were.  Each repaired defect has a negative "
+              "thread's effective format, and the live blocks exactly as they were; json_object_array_del_idx (asks the allocator for nothing: "
+              "range released once, capacity kept, refusal changes nothing) and json_object_array_shrink (may fail: array unchanged).  Each repaired defect has a negative "
               "control: the original code shape is kept as a second definition with a *_refuted theorem whose witness is evaluated by vm_compute. "
               "PARTIAL: the tokener's other allocation sites (token buffer appends, node constructors, member-name copy inside the state machine), "
               "json_tokener_parse_verbose / json_object_from_fd_ex, deep copy, JSON pointer get/set, JSON patch, json_object_get_string of a "
